@@ -874,7 +874,13 @@ def run_property(ctx, cfg, replay):
         "audit_ok": audit_ok,
         "driver_used": driver_ok,
     }
-    write_evidence(ctx, "proof", coverage, cfg.get("assumptions", []))
+    if proof_ok and audit_ok and not extract_broken:
+        write_evidence(ctx, "proof", coverage, cfg.get("assumptions", []))
+    else:
+        # a proof obligation (or the extraction it depends on) no longer checks on this tree: nothing is claimed at proof level
+        # for this run — what it did was explore (the search for a failing input); the VIOLATION line carries the verdict
+        coverage["explanation"] = "a proof obligation or the source extraction no longer checks on this tree; this run was the search for a failing input (see the VIOLATION line and the replay file)"
+        write_evidence(ctx, "exploration", coverage, cfg.get("assumptions", []))
     for l in known_lines:
         print(l)
     for k, n in ctx.known_hits.items():
